@@ -434,7 +434,7 @@ class Case:
         for c in reversed(w):
             horner = f"({cq(c)} + x * {horner})"
         self._emit(f"Bilin {a} {b} Id {we.text()}",
-                   "\n#ifdef VERIF_FP\n"
+                   "\n#ifdef VERIF_QUAD\n"
                    f"std::vector<S> xs; auto wf = [&](const S &x) {{ xs.push_back(x); return {horner}; }}; "
                    f"S r = bspline::integration::integrate<{n}>(wf, req(s{a}), req(s{b})); out.f(r); "
                    "std::sort(xs.begin(), xs.end()); out.tag(\"ABSC\"); out.n(xs.size()); for (auto &x : xs) out.f(x);"
